@@ -173,3 +173,12 @@ add(Gram("h2", Level([
     Named("switch", "v", ["verbose"]),
     Cmds([Cmd(["add"], _c1_add)]),
 ]), short_flags="vn", note="subcommand with its own version, fallback_to_usage"))
+
+add(Gram("e1", Level([
+    Named("switch", "a", ["alpha"], env="VERIF_A"),
+    Named("arg", "b", ["beta"], arity="req", env="VERIF_B"),
+    Named("arg", "c", ["gamma"], arity="opt", env="VERIF_C"),
+    Named("arg", "d", ["delta"], arity="many", env="VERIF_D"),
+    Named("arg", "f", ["fall"], arity="fallback", env="VERIF_F", default=42),
+]), short_flags="a", short_args="bcdf", env_names=["VERIF_A", "VERIF_B", "VERIF_C", "VERIF_D", "VERIF_F"],
+    note="env-backed switch and arguments under every wrapper"))
